@@ -148,3 +148,13 @@ pub fn stub_vec_with_capacity<T>(n: usize) -> Vec<T> {
 pub fn stub_vec_with_capacity<T>(n: usize) -> Vec<T> {
   Vec::with_capacity(n)
 }
+
+/// A `Bytes` holding `data` in the Arc-backed ("shared") representation.  `Bytes::from(vec)`
+/// with len == capacity yields the "promotable" representation, whose clone/drop go through
+/// pointer tagging and an int-to-pointer cast: measured > 5 GB in CBMC for one 4-byte value,
+/// against 1.7 s for the shared kind.  One byte of slack selects the shared kind.
+pub fn shared_bytes(data: &[u8]) -> bytes::Bytes {
+  let mut v = Vec::with_capacity(data.len() + 1);
+  v.extend_from_slice(data);
+  bytes::Bytes::from(v)
+}
